@@ -588,6 +588,7 @@ type rdDef struct {
 	path []int     // cell written (nil = whole alloc)
 	val  ssa.Value // stored value (nil for escape)
 	esc  *ssa.Call // escaping call
+	ai   int       // argument index of the escaping pointer (receiver first)
 	blk  *ssa.BasicBlock
 	idx  int
 }
@@ -631,7 +632,7 @@ func newReachDefs(b *builder) *reachDefs {
 							continue
 						}
 						call, _ := in.(*ssa.Call)
-						rd.defs[a] = append(rd.defs[a], rdDef{in: in, path: path, esc: call, blk: blk, idx: i})
+						rd.defs[a] = append(rd.defs[a], rdDef{in: in, path: path, esc: call, ai: ai, blk: blk, idx: i})
 					}
 				}
 			}
@@ -699,7 +700,7 @@ func (rd *reachDefs) scan(blk *ssa.BasicBlock, idx int, a *ssa.Alloc, path []int
 				// the def covers the cell (same cell or an enclosing one)
 				var e *Expr
 				if d.esc != nil {
-					e = rd.escapeExpr(d)
+					e = rd.escapeExprAt(d, blk, i, a)
 				} else {
 					e = rd.b.expr(d.val)
 				}
@@ -798,6 +799,137 @@ func projectPath2(e *Expr, t types.Type, path []int) *Expr {
 		}
 	}
 	return e
+}
+
+// escapeExprAt: when the pointer goes to an in-scope helper that only assigns fields of the struct it
+// points to (a step extracted into `func step(..., x *T)`), the content after the call is the content
+// before it with those fields replaced by what the helper stores (in the caller's terms); fields the
+// helper leaves alone keep their value. Anything else falls back to escapeExpr (opaque).
+func (rd *reachDefs) escapeExprAt(d rdDef, blk *ssa.BasicBlock, idx int, a *ssa.Alloc) *Expr {
+	if d.esc == nil {
+		return rd.escapeExpr(d)
+	}
+	cc := d.esc.Common()
+	sc := cc.StaticCallee()
+	if cc.IsInvoke() || sc == nil {
+		return rd.escapeExpr(d)
+	}
+	w := rd.b.w
+	sc = w.unwrap(sc)
+	if sc == nil || sc.Blocks == nil || !w.inSet[sc] || d.ai >= len(sc.Params) {
+		return rd.escapeExpr(d)
+	}
+	t := cellTypeOf(a, d.path)
+	st, ok := t.Underlying().(*types.Struct)
+	if !ok {
+		return rd.escapeExpr(d)
+	}
+	out, ok := w.outFields(sc, d.ai)
+	if !ok {
+		return rd.escapeExpr(d)
+	}
+	before := rd.scan(blk, idx, a, d.path)
+	en := w.callEnv(sc, d.esc, nil)
+	// inside the helper the struct is seen as <param>.<field>: bind the parameter to the content before the call
+	en.params[sc.Params[d.ai].Name()] = &Expr{Op: "ref", Args: []*Expr{before}}
+	res := &Expr{Op: "struct", Name: typeShort(t), T: t}
+	for i := 0; i < st.NumFields(); i++ {
+		name := st.Field(i).Name()
+		res.Fields = append(res.Fields, name)
+		if alts, written := out[i]; written {
+			var xs []*Expr
+			for _, x := range alts {
+				if x == nil {
+					xs = append(xs, fieldOf(before, name)) // a path through the helper that leaves the field alone
+				} else {
+					xs = append(xs, Subst(x, en.params))
+				}
+			}
+			res.Args = append(res.Args, mkPhi(xs))
+		} else {
+			res.Args = append(res.Args, fieldOf(before, name))
+		}
+	}
+	return res
+}
+
+// outFields summarises what an in-scope function stores through its ai-th parameter (a pointer to a
+// struct): field index -> the stored values in the function's own terms (nil entry = some path reaches a
+// return without storing that field). ok=false when the pointer is used in any way other than field loads
+// and field stores (passed on, captured, returned, stored whole, element writes).
+func (w *World) outFields(fn *ssa.Function, ai int) (map[int][]*Expr, bool) {
+	if w.outCache == nil {
+		w.outCache = map[[2]any]*outSum{}
+	}
+	k := [2]any{fn, ai}
+	if c, ok := w.outCache[k]; ok {
+		return c.fields, c.ok
+	}
+	sum := &outSum{}
+	w.outCache[k] = sum
+	p := fn.Params[ai]
+	if _, isPtr := p.Type().Underlying().(*types.Pointer); !isPtr {
+		return nil, false
+	}
+	refs := p.Referrers()
+	if refs == nil {
+		sum.ok, sum.fields = true, map[int][]*Expr{}
+		return sum.fields, true
+	}
+	stores := map[int][]*ssa.Store{}
+	for _, r := range *refs {
+		switch x := r.(type) {
+		case *ssa.FieldAddr:
+			if x.X != ssa.Value(p) {
+				return nil, false
+			}
+			if fr := x.Referrers(); fr != nil {
+				for _, u := range *fr {
+					switch y := u.(type) {
+					case *ssa.Store:
+						if y.Addr != ssa.Value(x) {
+							return nil, false // the field address itself is stored somewhere
+						}
+						stores[x.Field] = append(stores[x.Field], y)
+					case *ssa.UnOp: // load
+					case *ssa.DebugRef:
+					default:
+						return nil, false // address of a field escapes (call, nested field write, ...)
+					}
+				}
+			}
+		case *ssa.UnOp: // whole-struct load
+		case *ssa.DebugRef:
+		case *ssa.BinOp: // nil comparison
+		default:
+			return nil, false
+		}
+	}
+	fields := map[int][]*Expr{}
+	b := w.builderFor(fn)
+	for fi, sts := range stores {
+		var alts []*Expr
+		isStore := map[ssa.Instruction]bool{}
+		for _, s := range sts {
+			isStore[s] = true
+			alts = append(alts, b.expr(s.Val))
+		}
+		// can a return be reached without storing this field?
+		for _, ret := range Returns(fn) {
+			if Reaches(fn, ret, Cut{Barrier: func(in ssa.Instruction) bool { return isStore[in] }}) {
+				alts = append(alts, nil)
+				break
+			}
+		}
+		fields[fi] = alts
+	}
+	sum.ok, sum.fields = true, fields
+	return fields, true
+}
+
+type outSum struct {
+	fields map[int][]*Expr
+	ok     bool
 }
 
 // escapeExpr models what a call may have written through a pointer argument.
